@@ -224,6 +224,50 @@ func RunTree(r *vh.Run, rng *vh.RNG, name string, t *chainx.Tree, sched [][]int)
 		case !moved && got != 0:
 			c.Oracle("notified-without-tip-change", "%d notification(s) although the tip stayed at %s (result %s)", got, idxStr(t, beforeTip), res)
 		}
+		if strings.Contains(name, "/pruned") && bi == len(sched)/2 {
+			// the operator prunes once every subscriber has processed the chain so far (PruneBlocks'
+			// contract): all subscribers catch up, then every body below the tip's height + 1 goes;
+			// later batches resubmit old (now pruned) blocks and grow the chain, and the
+			// subscribers — sitting exactly at the last pruned height — must still be served
+			for _, s := range subs {
+				catchUp(s, 10000)
+				check(s)
+			}
+			h := nd.CM.Tip().Height + 1
+			if rng.Bool() && h > 1 {
+				h-- // keep the tip's body
+			}
+			hadHdr, hadState := map[int]bool{}, map[int]bool{}
+			for _, b := range t.Blocks {
+				if b.Parent == chainx.OrphanParent {
+					continue
+				}
+				_, hadHdr[b.ID] = nd.Store.Header(b.Block.ID())
+				_, hadState[b.ID] = nd.CM.State(b.Block.ID())
+			}
+			func() {
+				defer func() {
+					if rec := recover(); rec != nil {
+						c.Oracle("prune-panic", "PruneBlocks(%d) panicked: %v", h, rec)
+					}
+				}()
+				nd.CM.PruneBlocks(h)
+			}()
+			c.Op(fmt.Sprintf("prune %d", h), c01.Observe(t, nd, "ok"))
+			c.Tags = append(c.Tags, "pruned-under-subscribers")
+			// pruning removes bodies only: every header and every state is still there
+			for _, b := range t.Blocks {
+				if b.Parent == chainx.OrphanParent {
+					continue
+				}
+				_, hdr := nd.Store.Header(b.Block.ID())
+				_, st := nd.CM.State(b.Block.ID())
+				if (hadHdr[b.ID] && !hdr) || (hadState[b.ID] && !st) {
+					c.Oracle("prune-lost-header-or-state", "block %d (height %d): header %v -> %v, state %v -> %v after PruneBlocks(%d)", b.ID, b.Height, hadHdr[b.ID], hdr, hadState[b.ID], st, h)
+					break
+				}
+			}
+		}
 		for _, s := range subs {
 			if bi%s.lazy != 0 {
 				continue
@@ -245,9 +289,13 @@ func RunTree(r *vh.Run, rng *vh.RNG, name string, t *chainx.Tree, sched [][]int)
 		check(s)
 	}
 	// a late subscriber from nothing
-	late := &sub{name: "late", chunk: chunks[rng.Intn(len(chunks))], led: chainx.NewLedger()}
-	catchUp(late, 10000)
-	check(late)
+	if !strings.Contains(name, "/pruned") {
+		// (a node that has pruned its history cannot serve a subscriber from nothing: that is
+		// PruneBlocks' documented contract, not a failure)
+		late := &sub{name: "late", chunk: chunks[rng.Intn(len(chunks))], led: chainx.NewLedger()}
+		catchUp(late, 10000)
+		check(late)
+	}
 	if tainted {
 		c.Tags = append(c.Tags, "history-class:exp-unstable-revert")
 	}
@@ -289,6 +337,13 @@ func Run(r *vh.Run) {
 		}
 		if i%3 == 2 {
 			runListenerChurn(r, trng, fmt.Sprintf("tree%d/listener-churn", i), t)
+		}
+		// pruning under caught-up subscribers, old blocks offered again afterwards
+		if i%2 == 0 {
+			sched := t.Schedule(trng)
+			leaves := t.Leaves()
+			sched = append(sched, t.PathFromRoot(leaves[trng.Intn(len(leaves))]))
+			RunTree(r, trng, fmt.Sprintf("tree%d/pruned", i), t, sched)
 		}
 		// a reorg to a SHORTER, heavier chain: subscribers sitting above the new tip's height
 		if sh := t.ShorterHeavierSchedule(trng); sh != nil {
